@@ -446,6 +446,33 @@ def run(ctx):
     broken = list(st["broken"])
     if disagreements:
         broken.append("correspondence c08: model and implementation disagree on %d requests" % len(disagreements))
+    # ---- search for a failing input when only the correspondence broke: extend the disagreeing lists by names built
+    #      from the identifiers the implementation produced (a repair-by-renaming can collide with a name that is
+    #      already spelled like the repaired identifier), and judge the real answers by the oracle
+    if disagreements and not new_fail:
+        ext = []
+        for d in disagreements[:60]:
+            k, case, arg = req_parts(d["input"])
+            if not isinstance(arg, list): continue
+            kk, val = parse(d["impl"])
+            if kk != "ok" or not isinstance(val, list): continue
+            ids = [pr[0] for pr in val if isinstance(pr, list) and pr and isinstance(pr[0], str)]
+            for i in ids:
+                for extra in (i, i.lower(), i + "2", i[:-1] if len(i) > 1 else i):
+                    if extra not in arg: ext.append("%s %s" % (d["input"].split(" ")[0], J(arg + [extra])))
+        ext = list(dict.fromkeys(ext))[:600]
+        if ext:
+            eimpl = run_par("impl", ext, "search")
+            efail = []
+            for l, a in zip(ext, eimpl):
+                fails, _ = oracle(l, a)
+                for kd, det in fails: efail.append((l, a, kd, det))
+            names = []
+            for l, a, kd, det in efail: names += req_parts(l)[2]
+            pred.load(names)
+            for l, a, kd, det in efail:
+                if attribute(pred, l, kd, findings) is None: new_fail.append((l, a, kd, det))
+            ctx.log("search: %d extended inputs, %d oracle failures, %d not attributed" % (len(ext), len(efail), len(new_fail)))
     # ---- report
     seen_kinds = set()
     new_fail.sort(key=lambda t: len(t[0]))
